@@ -48,7 +48,7 @@ def jobs(tier, seed):
 
 META = dict(functions=th.TREE_FUNCTIONS, stubs=th.TREE_STUBS, assumptions=th.TREE_ASSUME, files=th.TREE_FILES)
 bounds_text = th.tree_bounds_text
-REGIONS = dict(mset_duplicates=lambda w, f: th.has_duplicate_members(w))
+REGIONS = dict(mset_duplicates=lambda w, f: th.matcher_collapse_region(w))
 
 
 def pre(tier, seed):
